@@ -113,6 +113,42 @@ def main():
     final_res = None
     if final_valid is not None and up:
         final_res = request(port, "POST", "/solve", body=open(os.path.join(req, "req_%d.body" % final_valid)).read().encode())
+    # the same valid instance padded with unused locations to a body larger than 2 MiB: it is still
+    # a valid request and must get a solution of its timetable (same departure segments, same count
+    # of vehicles as the unpadded answer is not required: extra default depots may be used)
+    big_res = None
+    if final_valid is not None and up and final_res is not None and final_res[0] == "200":
+        import json
+        try:
+            inst = json.loads(open(os.path.join(req, "req_%d.body" % final_valid)).read())
+            dh = inst["deadHeadTrips"]
+            n0 = len(dh["indices"])
+            pad = 430
+            ids = ["padloc%d" % i for i in range(pad)]
+            for i in ids:
+                inst["locations"].append({"id": i})
+            dh["indices"] = dh["indices"] + ids
+            for key, far in (("durations", 86400), ("distances", 900000)):
+                m = dh[key]
+                for row in m:
+                    row.extend([far] * pad)
+                for i in range(pad):
+                    m.append([far] * (n0 + i) + [0] + [far] * (pad - i - 1))
+            body = json.dumps(inst).encode()
+            st, txt = request(port, "POST", "/solve", body=body, timeout=120)
+            ok = 0
+            if st == "200":
+                try:
+                    small = json.loads(final_res[1])
+                    bigj = json.loads(txt)
+                    seg = lambda j: sorted(x["departureSegment"] for x in j["schedule"]["departureSegments"])
+                    ok = int(seg(small) == seg(bigj) and bigj["objectiveValue"]["unservedPassengers"] == small["objectiveValue"]["unservedPassengers"])
+                except Exception:
+                    ok = 0
+            big_res = (st, ok, len(body))
+        except Exception as e:
+            big_res = ("clienterror", 0, 0)
+    alive = alive and (srv.poll() is None)
     srv.kill()
     srv.wait()
     log.close()
@@ -150,6 +186,10 @@ def main():
         write_case("serve_%d_%d" % (seed, k), k, kind, st, body, common)
     if final_res is not None:
         write_case("serve_%d_final" % seed, final_valid, "valid", final_res[0], final_res[1], common + ["V final 1"])
+    if big_res is not None:
+        lines = ["CASE serve_%d_big serve %d %d quick" % (seed, seed, final_valid), open(os.path.join(req, "req_%d.inst" % final_valid)).read().rstrip("\n"),
+                 "V kind validbig", "V status %s" % big_res[0], "V bigok %d" % big_res[1], "V bytes %d" % big_res[2]] + common
+        open(os.path.join(outdir, "serve_%d_big.case" % seed), "w").write("\n".join(lines) + "\n")
     # request material is no longer needed
     for f in os.listdir(req):
         os.remove(os.path.join(req, f))
